@@ -795,9 +795,9 @@ impl<'t> Interp<'t> {
             }
             K_O_RESERVE => {
                 let n = 1 + op.a[2] as usize % 10_000;
-                // through a trait object the panicking form reports a claimed arena with handle_alloc_error,
-                // i.e. a process abort (known finding, exercised by the abort probes only)
-                let try_ = op.a[1] & 1 == 1 || carriers[c].is_dyn;
+                // (through a trait object the panicking form used to report a claimed arena with
+                // handle_alloc_error, i.e. a process abort: defect F3, repaired)
+                let try_ = op.a[1] & 1 == 1;
                 match self.guarded(op, || o.reserve(c, try_, n)) {
                     Call::Ok(()) => {
                         if self.on.c14 {
